@@ -39,6 +39,22 @@ class SplitHere(PathAbort):
     """The path reached the split depth: its decision prefix is handed to another worker."""
 
 
+def guarded_check(solver, timeout_ms):
+    """solver.check() with a hard deadline: z3's own timeout is soft (bit-blasting and preprocessing can overshoot
+    it by minutes); a watchdog thread interrupts the context shortly after the deadline."""
+    import threading
+
+    t = threading.Timer(timeout_ms / 1000.0 * 1.25 + 0.5, solver.ctx.interrupt)
+    t.daemon = True
+    t.start()
+    try:
+        return solver.check()
+    except z3.Z3Exception:
+        return z3.unknown
+    finally:
+        t.cancel()
+
+
 class _State:
     concretize_shift = True
     W = 72
@@ -723,6 +739,8 @@ class Engine:
         self.pref = None
         self.split_depth = 0
         self.forced_len = 0
+        self.stop = False
+        self.deadline = 0
         self.int_decide_ms = int(os.environ.get("SYMX_INT_MS", "10000"))
 
     # ---- variables ---------------------------------------------------------------------------
@@ -753,7 +771,7 @@ class Engine:
         if extra:
             self.isolver.push()
             self.isolver.add(*extra)
-        r = self.isolver.check()
+        r = guarded_check(self.isolver, self.int_timeout_ms)
         m = self.isolver.model() if r == z3.sat else None
         if extra:
             self.isolver.pop()
@@ -878,7 +896,7 @@ class Engine:
         s.set("timeout", timeout_ms or self.bv_timeout_ms)
         s.add(*self.pc_bv)
         s.add(*extra)
-        r = s.check()
+        r = guarded_check(s, timeout_ms or self.bv_timeout_ms)
         self.stats["bv_checks"] += 1
         self.stats["bv_s"] += time.time() - t
         if r == z3.unknown:
@@ -920,7 +938,7 @@ class Engine:
             self.isolver.set("timeout", tmo)
             try:
                 self.isolver.add(*ivc)
-                r = self.isolver.check()
+                r = guarded_check(self.isolver, tmo)
                 m = self.isolver.model() if r == z3.sat else None
             finally:
                 self.isolver.set("timeout", self.int_timeout_ms)
@@ -1008,6 +1026,10 @@ class Engine:
                 print("path", self.stats["paths"], outcome and outcome[0], "depth", len(self.prefix), flush=True)
             if self.stats["paths"] >= self.max_paths:
                 raise Unsupported(f"path budget {self.max_paths} exceeded")
+            if self.stop:
+                break  # a confirmed violation was recorded: no need to explore further
+            if self.deadline and time.time() > self.deadline:
+                raise Inconclusive("time budget of the task exceeded before the exploration finished")
             while self.prefix and not self.prefix[-1][1]:
                 self.prefix.pop()
             if not self.prefix:
